@@ -19,7 +19,7 @@ CHECKS = {
          'Quick: records within one field change of four base records + 6 seeded random records (about 6 300 cases, 34 000 states); thorough: two changes '
          '+ 150 random records. The driver compares, per connection, the exact command log the server received, the session state '
          '(user, proto, name, db, tracking mode, READONLY, NO-TOUCH, NO-EVICT, CAPA, lib info) and the outcome (NewClient error / ErrNoCache / command error / served).',
-    design_ref='DESIGN.md 4.5, 5 C47; proposed/design_session.md',
+    design_ref='DESIGN.md 4.5, 5 C47; design/session.md',
     note='Trusted: TLC, fakeredis as the server (its behaviour is also the environment part of the specification), the intercept that injects the fault. '
          'Bounded: one fault per case; the option space is sampled by distance to four base records plus seeded random records, not exhausted; '
          'the sentinel connection is compared on its leading setup run only (its later traffic is concurrent); extra sentinel-side RESP2 Pub/Sub connections are not compared; '
@@ -39,7 +39,7 @@ CHECKS = {
          'between a holder\'s first command and its pool.Store; every late call returns ErrDedicatedClientRecycled and reaches no connection; at pool.Store the server-side connection has no subscriptions and tracking off; '
          'the hooks channel is closed. The merged event log (pool hook events under the pool mutex, server events under the dispatcher mutex, session events) must be explained step by step by SessionTrace.tla, '
          'which also requires the logged server state at Store to equal the specification\'s wire state and forbids silent clean-up steps where the specification sends commands.',
-    design_ref='DESIGN.md 4.4, 5 C25; proposed/design_session.md',
+    design_ref='DESIGN.md 4.4, 5 C25; design/session.md',
     note='Trusted: TLC, fakeredis, hook placement in pool.go, attribution of commands by key tag (MULTI/EXEC/CLIENT TRACKING ON carry none and are attributed to the holder of their connection). '
          'Bounded: the Go scheduler is perturbed, not controlled; a release racing with an in-flight call of the same dedicated client (documented misuse) is not explored; '
          'scripts never clear an invalidation hook before release. Known findings (see proposed/known_findings_session.json): two consequences of a MULTI left open.'),
@@ -53,7 +53,37 @@ CHECKS = {
          'with a scripted context whose Err() flips at the call index that hits the chosen window; checked per step: error class, bytes written equal the reply value the server reports, HasNext, number and kind of pool.Store hook events, '
          'connection closed when predicted; then a probe stream: reused connection vs new one as predicted, a probe still waiting after 5 s with BlockingPoolSize 1 is the violation stream-wire-leaked. '
          'Concurrent runs: 3 goroutines x 6 DoMultiStream through a pool of 1-2: exact bytes per stream, one connection per stream, no command of another stream before the Store event, exactly one Store per stream.',
-    design_ref='DESIGN.md 4.4, 5 C29, 7 #12; proposed/design_session.md',
+    design_ref='DESIGN.md 4.4, 5 C29, 7 #12; design/session.md',
     note='Trusted: TLC, fakeredis (independent RESP codec; its SRep values are the byte oracle), pool hook events attributed by goroutine id. '
          'Bounded: RESP3 streamed (chunked) strings are not produced by the fake server; cut positions and writer limits are seeded samples; a truncated reply surfaces as io.EOF from WriteTo, which the specification only classifies as "error".'),
 }
+
+# round 2 (setup2): replaces the C47 entry above
+CHECKS.update({
+ 'C47': dict(
+    level='model_checking',
+    technique='TLA+ transcription of pipe.go _newPipe (Setup.tla) model-checked by TLC over enumerated option records x server kinds x '
+              'faults x user commands; every finished behaviour is printed as a CASE record (inputs + predicted per-connection command log, '
+              'server-side session state, outcome) and replayed against the real client over fakeredis',
+    text='Setup.tla has one action per protocol step of _newPipe (dial/AuthCredentialsFn, the pipelined RESP3 batch, one reply-loop iteration, '
+         'the proto<3 decision, the RESP2 batch and its loop, post-setup traffic, Close of a failed connection) plus an explicit server model '
+         '(session state per connection, reply class per command, NOAUTH after command lookup). Option record: static credentials none/password/user+password/user only AND the result class of AuthCredentialsFn '
+         '(no provider / empty pair / password only / user+password / user only, answered per address; the server accepts exactly the pair the property designates: the provider result replaces the static pair as a whole), ClientName, SelectDB, tracking default/custom/BCAST/DisableCache, ReplicaOnly, NO-TOUCH, NO-EVICT, ClientSetInfo '
+         'nil/2 entries/other, AlwaysRESP2, EnableReplicaAZInfo with and without AZFromInfo, client kind single/standalone-with-redirect/cluster/sentinel '
+         '(sentinel credentials and name, db 0); server kinds current / no HELLO / HELLO without RESP3; one fault per case: error reply (texts ERR / NOPERM / NOAUTH / LOADING / READONLY / WRONGPASS / unknown command <itself> / unknown command HELLO aimed at other steps; '
+         'the client model distinguishes only "HELLO is unknown" from "any other error") or cut connection at any step of any connection, failing AuthCredentialsFn, HELLO reply announcing proto 2; user command GET / BLPOP (pool connection) / '
+         'DoStream (stream-pool connection) / SUBSCRIBE (RESP2 Pub/Sub side connection). Invariants on every intermediate state: '
+         'NoUserCommandBeforeSetup (with the required session state in force), ServedOnlyWhenConfigured, FallbackOnlyOnHelloRejected, NoFallbackWithCache, '
+         'FailedStepFailsConnection, ToleratedOnly (READONLY, CLIENT SETINFO, HELLO 2 unknown), AuthLeadsResp2, AuthAsSupplied (every AUTH / HELLO AUTH argument that reaches a server is the designated pair, never a mix), CleanRunSucceeds. '
+         'Quick: records within one field change of four base records + 6 seeded random records (about 8 600 cases, 48 700 states); thorough: two changes '
+         '+ 150 random records. The driver compares, per connection, the exact command log the server received, the session state '
+         '(user, proto, name, db, tracking mode, READONLY, NO-TOUCH, NO-EVICT, CAPA, lib info) and the outcome (NewClient error / ErrNoCache / command error / served).',
+    design_ref='DESIGN.md 4.5, 5 C47; design/session.md',
+    note='Trusted: TLC, fakeredis as the server (its behaviour is also the environment part of the specification), the intercept that injects the fault. '
+         'Bounded: one fault per case; the option space is sampled by distance to four base records plus seeded random records, not exhausted; '
+         'the sentinel connection is compared on its leading setup run only (its later traffic is concurrent); extra sentinel-side RESP2 Pub/Sub connections are not compared; '
+         'the PING that Close pushes through a failed connection is treated as optional (1 s grace in pipe.Close); '
+         'error texts rotate over (step, record) outside the four base records (every (setup command, text) pair is checked to occur); MOVED/ASK/CLUSTERDOWN texts are not injected '
+         '(the cluster client reacts to them outside connection setup), LOADING not in the cluster topology; known oddity excused by the invariants and shown by two MC_setup_known_hellotext configs: '
+         'the code honours the text "unknown command HELLO" at every step of both lists (not aimed at AUTH).'),
+})
